@@ -243,6 +243,45 @@ func checkC17(c C17Case, o *Obs) error {
 		return fmt.Errorf("Sequences(n=%d,k=%d,%q) (seed %d) = %v, want the %d smallest distinct canonical k-mer hashes in descending order %v",
 			c.N, c.K, c.Seqs, c.Seed, base, c.N, want)
 	}
+	// The caller's sequence buffers are edited in place between two calls (a read buffer refilled
+	// with a read of the same length, a window whose middle bases are substituted - the first and
+	// last 40 bases stay): the second call is about what the buffers hold then.
+	{
+		bufs := toSlices(c.Seqs)
+		longest := -1
+		for i, b := range bufs {
+			if len(b) >= 100 && (longest < 0 || len(b) > len(bufs[longest])) {
+				longest = i
+			}
+		}
+		if longest >= 0 {
+			o.Class("sequence buffer edited in place between two calls")
+			catch(func() { mash.Sequences(c.N, c.K, bufs...) })
+			b := bufs[longest]
+			for i := 40 + len(b)%7; i < len(b)-40; i += 7 {
+				switch b[i] | 0x20 {
+				case 'a':
+					b[i] = b[i]&0x20 | 'C'
+				case 'c':
+					b[i] = b[i]&0x20 | 'G'
+				case 'g':
+					b[i] = b[i]&0x20 | 'T'
+				default:
+					b[i] = b[i]&0x20 | 'A'
+				}
+			}
+			set2, _, _ := refHashes(bufs, c.K, c.Seed)
+			want2 := bottomDesc(set2, c.N)
+			var got2 []uint64
+			if p := catch(func() { got2 = slices.Clone(mash.Sequences(c.N, c.K, bufs...).View()) }); p != nil {
+				return fmt.Errorf("Sequences(n=%d,k=%d) panicked on buffers edited in place after an earlier call: %v", c.N, c.K, p)
+			}
+			if !slices.Equal(got2, want2) {
+				return fmt.Errorf("Sequences(n=%d,k=%d) was called on the caller's buffers, the caller substituted every 7th base in the middle of sequence %d (%d bases; the first and last 40 untouched) in place and called again: the second sketch has %d values and differs from the %d smallest hashes of what the buffers hold now (is it the sketch of the old contents: %v)",
+					c.N, c.K, longest, len(b), len(got2), len(want2), slices.Equal(got2, base))
+			}
+		}
+	}
 	same := func(what string, variant [][]byte) error {
 		v, err := sketchView(c.N, c.K, variant)
 		if err != nil {
@@ -567,6 +606,19 @@ func exhaustiveC17(thorough bool, emit func(C17Case) bool) {
 		}
 	}
 	// every k from 1 to 70 on one real-data-shaped sequence (k-mer lengths around the block sizes of hash functions)
+	// more than 2^20 k-mers with very uneven diversity: 300 kb of sequence followed by a 1 Mb gap
+	// of N, and a tandem repeat followed by unique sequence; sketches larger than 1024
+	{
+		arm := realDNA(300000, 21, false, true)
+		gap := append(bytes.Clone(arm), bytes.Repeat([]byte("N"), 1000000)...)
+		unit := realDNA(5000, 22, false, false)
+		rep := append(bytes.Repeat(unit, 200), realDNA(320000, 23, false, false)...)
+		for _, sq := range [][]byte{gap, rep} {
+			if !emit(C17Case{Kind: "sketch", Seqs: []gen.B{sq}, K: 21, N: 4096, RC: []bool{false}, Partition: []int{1}, N2: 1500}) {
+				return
+			}
+		}
+	}
 	for k := 1; k <= 70; k++ {
 		if !emit(C17Case{Kind: "sketch", Seqs: []gen.B{realDNA(300, k, true, true), gen.B("ACGTTGCAAT")}, K: k, N: 400, RC: []bool{true}, CaseMode: 1, Partition: []int{1}, N2: 3}) {
 			return
